@@ -20,9 +20,9 @@ struct Info;
 
 namespace sim
 {
-enum TaskKind { TK_READER = 0, TK_SEARCH = 1 };
+enum TaskKind { TK_READER = 0, TK_SEARCH = 1, TK_HELPER = 2 };
 enum TaskState { ST_READY = 0, ST_RUNNING, ST_WAIT_INPUT, ST_WAIT_LOCK, ST_DONE, ST_WAIT_MUTEX, ST_WAIT_COND, ST_SLEEP, ST_WAIT_JOIN };
-constexpr int MAX_TASKS = 64;
+constexpr int MAX_TASKS = 256;
 
 struct Task
 {
@@ -156,6 +156,7 @@ struct World
     int64_t gui_time_event = -1;
     bool hold_search = false;
     bool gui_wake = false;
+    bool spawn_hint = false;
     ref::Game game;
     bool position_set = false;
     std::vector<GoRec> gos;
